@@ -20,7 +20,7 @@ CHECKS = {
  "C19": ("exploration", "TLA+ contracts + TLC trace validation of recorded executions (exact dyadic oracle)",
          "truncated / floored quotient semantics decided with exact big-integer division in TLA+ on every recorded %, %=, div_euclid, rem_euclid call (integer, near-integer, tiny and huge quotients, all sign combinations)." + LEGA),
  "C01": ("model_checking", "TLA+ state machine with the Normalised clause on every TwoFloat-producing action + TLC trace validation of random programs recorded from the real crate; exhaustive small-format TLC models of the transcribed algorithms",
-         "Normalised (valid or non-finite high word) is evaluated by the spec's own RN after every call of random 50-200-call programs with results fed back, of the directed arithmetic/conversion/rounding corpora, and of 128-bit integer conversions aimed at the tie-beside-odd pattern." + LEGA),
+         "Normalised (valid or non-finite high word) is evaluated by the spec's own RN after every call of random 50-200-call programs with results fed back, of the directed arithmetic/conversion/rounding corpora, of 128-bit integer conversions aimed at the tie-beside-odd pattern, and of programs mixing arithmetic with every mathematical function whose results are steered through the gradual-underflow and near-overflow zones (prog_elem)." + LEGA),
  "C06": ("model_checking", "TLA+ contracts (exact comparison of values) + TLC trace validation; relational checks through the determinism memo",
          "Every comparison operator in every pairing and both argument orders is checked against the exact three-way comparison of the values on related operand pairs (same high word, one low-word ulp apart, sign of zero), f64 comparands incl. infinities/NaN, and NaN-bearing values reachable through the API." + LEGA),
  "C07": ("model_checking", "TLA+ definition RN(a+b)=a evaluated by the spec's own RN + TLC trace validation over the complete structural grid",
@@ -36,7 +36,7 @@ CHECKS = {
  "C12": ("model_checking", "rigorous ball enclosures of the mathematical constants computed in TLA+ (Machin, atanh series, Taylor, verified division / integer square root) + TLC trace validation; the finite set of constants is checked completely",
          "All 19 consts::* and FloatConst accessors and the 7 associated constants are compared on every run with the correctly rounded double-double derived from an enclosure computed by the specification; to_degrees/to_radians are decided three-valued against an enclosure of pi on sampled operands."),
  "C13": ("exploration", "TLA+ contracts: exact dyadic inequalities on r^2 / r^3, ball enclosure of x^|n| by binary powering; TLC trace validation",
-         "sqrt/cbrt/hypot tolerances are exact integer inequalities; powi is checked against an enclosure of x^|n| for exponents log-uniform in |n| with i32::MIN/MAX, 0, +-1 always included, the n = 0 / 1 clauses, totality (no panic) and powi(x,-n) == recip(powi(x,n)) through the memo."),
+         "sqrt/cbrt/hypot tolerances are exact integer inequalities; powi is checked against an enclosure of x^|n| for exponents log-uniform in |n| with i32::MIN/MAX, 0, +-1 always included, the n = 0 / 1 clauses, totality (no panic) and powi(x,-n) == recip(powi(x,n)) through the memo." + LEGA),
  "C14": ("exploration", "TLA+ ball-arithmetic enclosures of exp / expm1 (Taylor with explicit remainder, enclosure of ln 2) + TLC trace validation, three-valued verdicts",
          "Accuracy floors, exact points, saturation and the sign/parity rules of exp, exp2, exp_m1, powf are decided on stratified arguments (every lookup-table entry from both reduction sides, every range switch, tie low words); a panic is a violation on the whole valid domain." + LEGA),
  "C15": ("exploration", "TLA+ enclosure of ln by rigorous Newton steps through the exp enclosure + TLC trace validation",
@@ -82,7 +82,7 @@ def main():
         "engines": [
             {"name": "tla-trace", "path": "spec/Trace.tla", "serves_properties": sorted(CHECKS),
              "kind_free_text": "TLA+ state machine of the library (spec/Machine.tla + Contracts*.tla over BigNat/Dyadic/IEEE/DD/Ball/Elementary) checked by TLC: trace validation of executions recorded from the real crate by harness/ (impl -> spec), with a drift check against the transcription spec/AlgArith.tla"},
-            {"name": "tla-mc", "path": "spec/MC_Small.tla", "serves_properties": ["C01", "C02", "C03", "C04", "C05", "C06", "C07", "C08", "C09", "C10", "C14", "C16", "C17", "C19"],
+            {"name": "tla-mc", "path": "spec/MC_Small.tla", "serves_properties": ["C01", "C02", "C03", "C04", "C05", "C06", "C07", "C08", "C09", "C10", "C13", "C14", "C16", "C17", "C19"],
              "kind_free_text": "exhaustive TLC models of the transcribed algorithms in small floating-point formats (P = 3, 4, 5): spec/MC_Small.tla (every operand pair / every value, sliced over 16 TLC processes), spec/MC_Machine.tla (all states reachable by arbitrary chains of operations), spec/AlgFlow.tla (exp reduction, quadrant selection)"},
         ],
         "checks": checks,
